@@ -3,11 +3,14 @@
 K1: real mro.MROMerge (incl. Dedup and the SINGLETON escape) vs the Lean model, exhaustive small
     sequence families + random.
 K2: the Lean *specification* (pmerge / mro_implementation) vs the running interpreter: type(name, bases, {}).
+    K2b: the specification of attribute lookup / super() lookup vs getattr / super() of the interpreter.
 K3: real pytype (io.generate_pyi) on programs generated from hierarchies vs the Lean model of
-    compute_mro + the mro walk of attribute lookup; stub classes through mro.GetBasesInMRO.
+    compute_mro + the mro walk of attribute lookup (plain reads and reads through super());
+    stub classes through mro.GetBasesInMRO.
 W : the known finding `class C(A, A)` (accepted by pytype, refused by CPython).
 S : CPython itself as oracle for pytype's [mro-error] lines and the type of C.attr.
 """
+import collections
 import itertools
 import multiprocessing
 import os
@@ -18,7 +21,7 @@ import time
 from harness import common
 
 REQUIRED = ["merge_eq_pmerge", "mromerge_eq_pmerge", "merge_fuel_sufficient", "mro_eq_partial", "mro_eq",
-            "mro_error_iff", "lookup_eq", "walk_is_first_definer", "mro_dup_witness", "mro_dup_not_full",
+            "mro_error_iff", "lookup_eq", "super_lookup_eq", "walk_is_first_definer", "mro_dup_witness", "mro_dup_not_full",
             "mro_shape", "stub_mro_eq", "stub_bases_eq_cpython"]
 
 # literal written in class i's body, pytype's name for its type in the emitted stub, CPython's type name
@@ -290,12 +293,28 @@ def k2(res, rng, tier, drv, dist):
 # ----------------------------------------------------------------------------
 # programs
 # ----------------------------------------------------------------------------
+Item = collections.namedtuple("Item", "tag bases defs sdefs nattrs")
+# defs[i]  = attributes a<k> class i defines (value: the literal unique to class i)
+# sdefs[i] = attributes for which class i defines the reader `def s<k>(self): return super().a<k>`
+
+
 def cname(tag, i):
   return "object" if i == 0 else "K%s_%d" % (tag, i)
 
 
-def make_chunks(tag, bases, defs, nattrs):
+READ_MODE = "both"  # "alt": one read per (class, attr), through the class or an instance alternately (quick K3)
+
+
+def vias(it, i, a):
+  v = "ci" if READ_MODE == "both" else ("c" if (i + a) % 2 == 0 else "i")
+  if any(a in sd for sd in it.sdefs):
+    v += "s"
+  return v
+
+
+def make_chunks(it):
   """Statements of one hierarchy: list of (kind, key, source); kind 'class' key i, kind 'read' key (i, a, via)."""
+  tag, bases = it.tag, it.bases
   chunks = []
   for i in range(1, len(bases)):
     bs = bases[i]
@@ -303,37 +322,56 @@ def make_chunks(tag, bases, defs, nattrs):
       head = "class %s:" % cname(tag, i)
     else:
       head = "class %s(%s):" % (cname(tag, i), ", ".join(cname(tag, b) for b in bs))
-    body = ["  a%d = %s" % (a, LITS[i - 1][0]) for a in defs[i]] or ["  pass"]
-    chunks.append(("class", i, "\n".join([head] + body) + "\n"))
+    body = ["  a%d = %s" % (a, LITS[i - 1][0]) for a in it.defs[i]]
+    for a in it.sdefs[i]:
+      sup = "super()" if (i + a) % 3 else "super(%s, self)" % cname(tag, i)
+      body.append("  def s%d(self): return %s.a%d" % (a, sup, a))
+    chunks.append(("class", i, "\n".join([head] + (body or ["  pass"])) + "\n"))
   for i in range(1, len(bases)):
-    for a in range(nattrs):
-      chunks.append(("read", (i, a, "c"), "rc%s_%d_%d = %s.a%d\n" % (tag, i, a, cname(tag, i), a)))
-      chunks.append(("read", (i, a, "i"), "ri%s_%d_%d = %s().a%d\n" % (tag, i, a, cname(tag, i), a)))
+    for a in range(it.nattrs):
+      v = vias(it, i, a)
+      if "c" in v:
+        chunks.append(("read", (i, a, "c"), "rc%s_%d_%d = %s.a%d\n" % (tag, i, a, cname(tag, i), a)))
+      if "i" in v:
+        chunks.append(("read", (i, a, "i"), "ri%s_%d_%d = %s().a%d\n" % (tag, i, a, cname(tag, i), a)))
+      if "s" in v:
+        chunks.append(("read", (i, a, "s"), "rs%s_%d_%d = %s().s%d()\n" % (tag, i, a, cname(tag, i), a)))
   return chunks
 
 
-def random_defs(rng, nclasses, nattrs):
+def program_text(it):
+  return "".join(c[2] for c in make_chunks(it))
+
+
+def random_defs(rng, nclasses, nattrs, p=None):
   defs = [[]]
   for _ in range(1, nclasses):
-    p = rng.choice([0.2, 0.4, 0.6])
-    defs.append([a for a in range(nattrs) if rng.random() < p])
+    q = p if p is not None else rng.choice([0.2, 0.4, 0.6])
+    defs.append([a for a in range(nattrs) if rng.random() < q])
   return defs
 
 
+def no_defs(nclasses):
+  return [[] for _ in range(nclasses)]
+
+
 def build_module(items):
-  """items: list of (tag, bases, defs, nattrs).  Returns (source, line map)."""
+  """Returns (source, line map: line number -> (tag, kind, key)); body lines of a class map to kind 'body'."""
   src = []
-  lines = {}  # line number -> (tag, kind, key)
+  lines = {}
   ln = 1
-  for tag, bases, defs, nattrs in items:
-    for kind, key, text in make_chunks(tag, bases, defs, nattrs):
-      lines[ln] = (tag, kind, key)
+  for it in items:
+    for kind, key, text in make_chunks(it):
+      lines[ln] = (it.tag, kind, key)
+      n = text.count("\n")
+      for extra in range(1, n):
+        lines[ln + extra] = (it.tag, "body", key)
       src.append(text)
-      ln += text.count("\n")
+      ln += n
   return "".join(src), lines
 
 
-_VAR_RE = re.compile(r"^(r[ci])(\w+?)_(\d+)_(\d+): (.+)$")
+_VAR_RE = re.compile(r"^r([cis])(\w+?)_(\d+)_(\d+): (.+)$")
 
 
 def run_pytype(src):
@@ -345,35 +383,47 @@ def run_pytype(src):
   for line in pyi.splitlines():
     m = _VAR_RE.match(line)
     if m:
-      types[(m.group(2), int(m.group(3)), int(m.group(4)), m.group(1)[1])] = m.group(5)
+      types[(m.group(2), int(m.group(3)), int(m.group(4)), m.group(1))] = m.group(5)
   return types, errs
 
 
-def observe_pytype(items, src, lines, types, errs):
-  """Canonical observation per hierarchy: {tag: (class status list, reads dict)}; plus stray errors."""
+def observe_pytype(items, lines, types, errs):
+  """Canonical observation per hierarchy: {tag: (class status list, reads dict)}; plus stray errors.
+  attribute-errors reported inside a reader method (`super().a` finds nothing for *some* receiver the VM
+  analysed, including the method's own class) are not attributed to a read; the read's type is compared."""
   mro_err = set()
   attr_err = set()
   stray = []
+  body_err = []
   for name, line in errs:
     loc = lines.get(line)
     if name == "mro-error" and loc and loc[1] == "class":
       mro_err.add((loc[0], loc[2]))
     elif name == "attribute-error" and loc and loc[1] == "read":
       attr_err.add((loc[0],) + loc[2])
+    elif loc and loc[1] == "body":
+      body_err.append((name, line, loc[0], loc[2]))
     else:
       stray.append("%s@%s" % (name, line))
+  # inside a class body: attribute-error of a reader is expected; in the body of a class that got an mro-error
+  # (pytype still analyses it, without a usable __class__) super() itself is reported
+  for name, line, tag, i in body_err:
+    if name == "attribute-error" or ((tag, i) in mro_err and name in ("name-error", "invalid-super-call")):
+      continue
+    stray.append("%s@%s" % (name, line))
   obs = {}
-  for tag, bases, defs, nattrs in items:
-    status = ["ok"] + ["err" if (tag, i) in mro_err else "ok" for i in range(1, len(bases))]
+  for it in items:
+    tag = it.tag
+    status = ["ok"] + ["err" if (tag, i) in mro_err else "ok" for i in range(1, len(it.bases))]
     reads = {}
-    for i in range(1, len(bases)):
-      for a in range(nattrs):
-        for via in "ci":
+    for i in range(1, len(it.bases)):
+      for a in range(it.nattrs):
+        for via in vias(it, i, a):
           t = types.get((tag, i, a, via))
           if (tag, i, a, via) in attr_err:
             v = "-" if t == "Any" else "?attribute-error+%s" % t
           elif t == "Any":
-            v = "E"
+            v = "E" if (via != "s" or status[i] == "err") else "A"
           elif t in PYI2LIT:
             v = str(PYI2LIT[t] + 1)  # literal k belongs to class k+1
           else:
@@ -383,13 +433,14 @@ def observe_pytype(items, src, lines, types, errs):
   return obs, stray
 
 
-def observe_cpython(tag, bases, defs, nattrs):
+def observe_cpython(it):
   """The same statements executed one by one by the running interpreter."""
   ns = {}
-  status = ["ok"] * len(bases)
-  kinds = [None] * len(bases)
+  n = len(it.bases)
+  status = ["ok"] * n
+  kinds = [None] * n
   reads = {}
-  for kind, key, text in make_chunks(tag, bases, defs, nattrs):
+  for kind, key, text in make_chunks(it):
     try:
       exec(compile(text, "<c10>", "exec"), ns)  # pylint: disable=exec-used
       if kind == "read":
@@ -403,7 +454,12 @@ def observe_cpython(tag, bases, defs, nattrs):
       else:
         reads[key] = "?TypeError"
     except AttributeError:
-      reads[key] = "-" if kind == "read" else "?AttributeError"
+      if kind != "read":
+        status[key] = "?AttributeError"
+      elif key[2] == "s" and hasattr(ns[cname(it.tag, key[0])], "s%d" % key[1]):
+        reads[key] = "A"  # the reader ran, super().a found nothing
+      else:
+        reads[key] = "-"
     except NameError:
       if kind == "read":
         reads[key] = "E"
@@ -413,22 +469,25 @@ def observe_cpython(tag, bases, defs, nattrs):
   return status, reads, kinds
 
 
-def model_obs(drv, hs):
-  """Lean model of pytype for [(bases, defs, nattrs)] -> [(status, reads)]."""
+def model_obs(drv, items):
+  """Lean model of pytype -> [(status, reads)] in the order of items."""
   lines = []
-  for bases, defs, nattrs in hs:
-    lines.append("pymro " + enc_lists(bases))
-    lines.append("pylookup %s %s %d" % (enc_lists(bases), enc_lists(defs), nattrs))
+  for it in items:
+    h = enc_lists(it.bases)
+    lines.append("pymro " + h)
+    lines.append("pylookup %s %s %d" % (h, enc_lists(it.defs), it.nattrs))
+    lines.append("pysuper %s %s %s %d" % (h, enc_lists(it.defs), enc_lists(it.sdefs), it.nattrs))
   out = drv.batch(lines)
   res = []
-  for k, (bases, defs, nattrs) in enumerate(hs):
-    status = ["ok" if r.startswith("ok") else "err" for r in out[2 * k].split("|")]
-    look = [row.split(",") if nattrs else [] for row in out[2 * k + 1].split("|")]
+  for k, it in enumerate(items):
+    status = ["ok" if r.startswith("ok") else "err" for r in out[3 * k].split("|")]
+    look = [row.split(",") if it.nattrs else [] for row in out[3 * k + 1].split("|")]
+    sup = [row.split(",") if it.nattrs else [] for row in out[3 * k + 2].split("|")]
     reads = {}
-    for i in range(1, len(bases)):
-      for a in range(nattrs):
-        for via in "ci":
-          reads[(i, a, via)] = look[i][a]
+    for i in range(1, len(it.bases)):
+      for a in range(it.nattrs):
+        for via in vias(it, i, a):
+          reads[(i, a, via)] = sup[i][a] if via == "s" else look[i][a]
     res.append((status, reads))
   return res
 
@@ -437,20 +496,21 @@ def _pool_init():
   common.load_pytype()
 
 
-def _pool_task(job):
-  items = job
+def _pool_task(items):
   src, lines = build_module(items)
   try:
     types, errs = run_pytype(src)
   except Exception as e:  # pylint: disable=broad-except
     return {"crash": "%s: %s" % (type(e).__name__, str(e)[:300]), "src": src}
-  obs, stray = observe_pytype(items, src, lines, types, errs)
+  obs, stray = observe_pytype(items, lines, types, errs)
   return {"obs": obs, "stray": stray}
 
 
 def run_programs(items, per_module):
   """Real pytype over all items (batched, parallel) -> {tag: (status, reads)}, list of problems."""
   jobs = [items[i:i + per_module] for i in range(0, len(items), per_module)]
+  if not jobs:
+    return {}, []
   nproc = max(1, min(16, os.cpu_count() or 1, len(jobs)))
   obs = {}
   problems = []
@@ -465,6 +525,14 @@ def run_programs(items, per_module):
         problems.append({"part": "K3 unexpected pytype errors", "errors": r["stray"][:10],
                          "program": build_module(job)[0][:3000]})
   return obs, problems
+
+
+def run_one(it):
+  """Real pytype, in-process, on one hierarchy."""
+  src, lines = build_module([it])
+  types, errs = run_pytype(src)
+  obs, stray = observe_pytype([it], lines, types, errs)
+  return obs[it.tag], errs, stray
 
 
 def diff_obs(a, b):
@@ -489,52 +557,106 @@ def program_inputs(rng, tier):
     for h, _ in enum_hiers(4, 2):
       hs.append(h)
   n_ex = len(hs)
-  nrand = 1500 if tier == "thorough" else 250
+  nrand = 1500 if tier == "thorough" else 200
   for _ in range(nrand):
     h, _ = random_hier(rng, pdup=0.08)
     hs.append(h)
   items = []
   for k, h in enumerate(hs):
     nattrs = 3 if k >= n_ex else 2
-    items.append(("%d" % k, h, random_defs(rng, len(h), nattrs), nattrs))
+    sd = random_defs(rng, len(h), nattrs, p=rng.choice([0.0, 0.25, 0.4]))
+    items.append(Item("%d" % k, h, random_defs(rng, len(h), nattrs), sd, nattrs))
   return items, n_ex
 
 
 def k3(res, rng, tier, drv, dist):
+  global READ_MODE
+  READ_MODE = "both" if tier == "thorough" else "alt"
+  try:
+    return _k3(res, rng, tier, drv, dist)
+  finally:
+    READ_MODE = "both"
+
+
+def _k3(res, rng, tier, drv, dist):
   items, n_ex = program_inputs(rng, tier)
   t0 = time.time()
   obs, problems = run_programs(items, per_module=10)
   dist["k3_pytype_wall_s"] = round(time.time() - t0, 1)
-  model = model_obs(drv, [(b, d, n) for _, b, d, n in items])
+  model = model_obs(drv, items)
   dis = list(problems)
   nontriv = set()
   stats = {"classes": 0, "mro_error_classes": 0, "dup_base_classes": 0, "reads": 0, "reads_inherited": 0,
-           "reads_missing": 0}
-  for (tag, bases, defs, nattrs), mo in zip(items, model):
-    if tag not in obs:
+           "reads_missing": 0, "super_reads": 0, "super_reads_resolved": 0}
+  for it, mo in zip(items, model):
+    if it.tag not in obs:
       continue
-    po = obs[tag]
-    stats["classes"] += len(bases) - 1
+    po = obs[it.tag]
+    stats["classes"] += len(it.bases) - 1
     stats["mro_error_classes"] += po[0].count("err")
-    stats["dup_base_classes"] += sum(1 for b in bases if len(set(b)) < len(b))
+    stats["dup_base_classes"] += sum(1 for b in it.bases if len(set(b)) < len(b))
     stats["reads"] += len(po[1])
-    stats["reads_inherited"] += sum(1 for (i, a, v), d in po[1].items() if d.isdigit() and int(d) != i)
+    stats["reads_inherited"] += sum(1 for (i, a, v), d in po[1].items() if v != "s" and d.isdigit() and int(d) != i)
     stats["reads_missing"] += sum(1 for d in po[1].values() if d == "-")
-    if any(len(b) >= 2 for b in bases):
-      nontriv.add((enc_lists(bases), enc_lists(defs)))
+    stats["super_reads"] += sum(1 for (i, a, v) in po[1] if v == "s")
+    stats["super_reads_resolved"] += sum(1 for (i, a, v), d in po[1].items() if v == "s" and d.isdigit())
+    if any(len(b) >= 2 for b in it.bases):
+      nontriv.add((enc_lists(it.bases), enc_lists(it.defs), enc_lists(it.sdefs)))
     d = diff_obs(po, mo)
     if d:
-      dis.append({"part": "K3 pytype on program vs model", "hier": bases, "defs": defs, "nattrs": nattrs,
-                  "diff(pytype vs model)": d[:8],
-                  "program": "".join(c[2] for c in make_chunks(tag, bases, defs, nattrs))})
+      dis.append({"part": "K3 pytype on program vs model", "hier": it.bases, "defs": it.defs, "sdefs": it.sdefs,
+                  "nattrs": it.nattrs, "diff(pytype vs model)": d[:8], "program": program_text(it)})
   dist["k3_programs_exhaustive_small"] = n_ex
   dist["k3_programs_random"] = len(items) - n_ex
   dist["k3_observed"] = stats
   ex = items[-1]
-  res.add_samples([{"K3 hierarchy": ex[1], "defs": ex[2],
-                    "program": "".join(c[2] for c in make_chunks(ex[0], ex[1], ex[2], ex[3]))[:1200],
-                    "pytype=model class status": obs.get(ex[0], ([], {}))[0]}])
+  res.add_samples([{"K3 hierarchy": ex.bases, "defs": ex.defs, "super_readers": ex.sdefs,
+                    "program": program_text(ex)[:1500],
+                    "pytype=model class status": obs.get(ex.tag, ([], {}))[0]}])
   return dis, len(items), len(nontriv)
+
+
+def k2b(res, rng, tier, drv, dist):
+  """The CPython *specification* of lookups (cLookup, cSuperRead) against the interpreter executing programs."""
+  n = 8000 if tier == "thorough" else 1200
+  items = []
+  for k in range(n):
+    h, _ = random_hier(rng, pdup=0.05)
+    items.append(Item("%d" % k, h, random_defs(rng, len(h), 3), random_defs(rng, len(h), 3, p=0.35), 3))
+  lines = []
+  for it in items:
+    h = enc_lists(it.bases)
+    lines.append("cmro " + h)
+    lines.append("clookup %s %s %d" % (h, enc_lists(it.defs), it.nattrs))
+    lines.append("csuper %s %s %s %d" % (h, enc_lists(it.defs), enc_lists(it.sdefs), it.nattrs))
+  out = drv.batch(lines)
+  dis = []
+  nontriv = set()
+  nreads = 0
+  past_sibling = 0
+  for k, it in enumerate(items):
+    status = ["ok" if r.startswith("ok") else "err" for r in out[3 * k].split("|")]
+    look = [row.split(",") for row in out[3 * k + 1].split("|")]
+    sup = [row.split(",") for row in out[3 * k + 2].split("|")]
+    reads = {}
+    for i in range(1, len(it.bases)):
+      for a in range(it.nattrs):
+        for via in vias(it, i, a):
+          reads[(i, a, via)] = sup[i][a] if via == "s" else look[i][a]
+    cs, cr, _ = observe_cpython(it)
+    nreads += len(cr)
+    past_sibling += sum(1 for (i, a, v), d in cr.items() if v == "s" and d.isdigit())
+    if any(len(b) >= 2 for b in it.bases):
+      nontriv.add((enc_lists(it.bases), enc_lists(it.defs), enc_lists(it.sdefs)))
+    d = diff_obs((cs, cr), (status, reads))
+    if d:
+      dis.append({"part": "K2b Lean spec of lookup/super vs CPython", "hier": it.bases, "defs": it.defs,
+                  "sdefs": it.sdefs, "nattrs": it.nattrs, "diff(cpython vs spec)": d[:8],
+                  "program": program_text(it)})
+  dist["k2b_programs"] = n
+  dist["k2b_reads_compared"] = nreads
+  dist["k2b_super_reads_resolved"] = past_sibling
+  return dis, n, len(nontriv)
 
 
 # ----------------------------------------------------------------------------
@@ -619,7 +741,7 @@ def correspond(res, rng, tier):
   dis = []
   evals = 0
   nontriv = 0
-  for part in (k1, k2, k3, k_stub):
+  for part in (k1, k2, k2b, k3, k_stub):
     t0 = time.time()
     d, n, nt = part(res, rng, tier, drv, dist)
     dist[part.__name__ + "_wall_s"] = round(time.time() - t0, 1)
@@ -636,9 +758,10 @@ def correspond(res, rng, tier):
       "repeated elements and with every SINGLETON mask, plus seeded random families up to 6 sequences / 8 symbols; "
       "K2: Lean cMroTable (spec) vs type(name, bases, {}) for all hierarchies of the stated bounds (bases are "
       "sequences with repetition over successfully created classes incl. object) plus random hierarchies up to 8 "
-      "classes / 3 bases, outcome and error kind per class; K3: io.generate_pyi on generated programs (10 "
+      "classes / 3 bases, outcome and error kind per class; K2b: Lean cLookup/cSuperRead vs the interpreter executing "
+      "generated programs (getattr through class and instance, and reader methods `def s(self): return super().a`); K3: io.generate_pyi on generated programs (10 "
       "hierarchies per module, every class defines a random subset of attributes with a literal type unique to "
-      "the class; reads C.a and C().a for every class/attr) vs Lean pyMroTable/pyLookup: [mro-error] per class "
+      "the class, and reader methods using zero- and two-argument super(); reads C.a, C().a - quick tier: one of the two, alternating - and C().s() for every class/attr) vs Lean pyMroTable/pyLookup: [mro-error] per class "
       "statement and definer of each read; stubs: mro.GetBasesInMRO on pytd.Class nodes (cls pointers or "
       "lookup_ast; incl. cyclic) vs Lean getBasesInMro. non-trivial = K1: >=2 non-empty sequences sharing a "
       "symbol; K2/K3/stubs: some class has >=2 bases; distinct = distinct inputs within each part (parts summed)")
@@ -717,8 +840,8 @@ def oracle_diff(bases, po, co):
     if k[0] in known:
       continue
     if pr[k] != cr.get(k):
-      d.append("read K_%d%s.a%d: pytype definer %s, CPython %s" % (k[0], "()" if k[2] == "i" else "", k[1],
-                                                                    pr[k], cr.get(k)))
+      what = {"c": "K_%d.a%d", "i": "K_%d().a%d", "s": "K_%d().s%d()"}[k[2]] % (k[0], k[1])
+      d.append("read %s: pytype definer %s, CPython %s" % (what, pr[k], cr.get(k)))
   return d
 
 
@@ -732,56 +855,71 @@ def valid_for_oracle(bases):
   return True
 
 
-def remove_class(bases, defs, j):
-  nb, nd = [], []
-  for i, bs in enumerate(bases):
+def remove_class(it, j):
+  nb, nd, ns = [], [], []
+  for i, bs in enumerate(it.bases):
     if i == j:
       continue
     bs2 = [b - 1 if b > j else b for b in bs if b != j]
     nb.append(bs2 if (bs2 or i == 0) else [0])
-    nd.append(defs[i])
-  return nb, nd
+    nd.append(it.defs[i])
+    ns.append(it.sdefs[i])
+  return it._replace(bases=nb, defs=nd, sdefs=ns)
 
 
-def shrink_hier(bases, defs, nattrs, fails):
-  """Greedy: drop classes, then base entries, then attribute definitions, while the oracle still fails."""
+def shrink_item(it, fails, budget_s=40):
+  """Greedy: drop classes, then base entries, then attribute definitions / readers, then attribute names,
+  while the oracle still fails."""
   t0 = time.time()
   changed = True
-  while changed and time.time() - t0 < 40:
+  while changed and time.time() - t0 < budget_s:
     changed = False
-    for j in range(len(bases) - 1, 0, -1):
-      nb, nd = remove_class(bases, defs, j)
-      if len(nb) > 1 and valid_for_oracle(nb) and fails(nb, nd):
-        bases, defs, changed = nb, nd, True
+    for j in range(len(it.bases) - 1, 0, -1):
+      c = remove_class(it, j)
+      if len(c.bases) > 1 and valid_for_oracle(c.bases) and fails(c):
+        it, changed = c, True
         break
     if changed:
       continue
-    for i in range(1, len(bases)):
-      for p in range(len(bases[i])):
-        if len(bases[i]) > 1:
-          nb = [list(b) for b in bases]
+    for i in range(1, len(it.bases)):
+      for p in range(len(it.bases[i])):
+        if len(it.bases[i]) > 1:
+          nb = [list(b) for b in it.bases]
           del nb[i][p]
-          if valid_for_oracle(nb) and fails(nb, defs):
-            bases, changed = nb, True
+          c = it._replace(bases=nb)
+          if valid_for_oracle(nb) and fails(c):
+            it, changed = c, True
             break
       if changed:
         break
     if changed:
       continue
-    for i in range(1, len(defs)):
-      for a in list(defs[i]):
-        nd = [list(x) for x in defs]
-        nd[i].remove(a)
-        if fails(bases, nd):
-          defs, changed = nd, True
+    for field in ("defs", "sdefs"):
+      cur = getattr(it, field)
+      for i in range(1, len(cur)):
+        for a in list(cur[i]):
+          nd = [list(x) for x in cur]
+          nd[i].remove(a)
+          c = it._replace(**{field: nd})
+          if fails(c):
+            it, changed = c, True
+            break
+        if changed:
           break
       if changed:
         break
-  return bases, defs
+  for n in range(it.nattrs):  # fewest attribute names (hence reads) that still show the failure
+    if all(a < n for d in it.defs + it.sdefs for a in d):
+      c = it._replace(nattrs=n)
+      if fails(c):
+        it = c
+        break
+  return it
 
 
 def stub_oracle_fail(bases):
-  """GetBasesInMRO vs CPython's __mro__[1:] for acyclic hierarchies (known region skipped)."""
+  """GetBasesInMRO vs CPython's __mro__[1:] for acyclic hierarchies (known region skipped).
+  Returns None or dict(class, pytype order, cpython order)."""
   if not valid_for_oracle(bases):
     return None
   live = Live()
@@ -798,82 +936,132 @@ def stub_oracle_fail(bases):
   return None
 
 
+def targeted_item(bases, f):
+  """A program in which the attribute is defined exactly by the two classes the two linearisations order
+  differently, so that the wrong order shows as a wrong attribute type."""
+  defs = no_defs(len(bases))
+  if f["GetBasesInMRO"].startswith("ok") and f["cpython___mro__[1:]"].startswith("ok"):
+    p = [int(x) for x in f["GetBasesInMRO"][3:].split(",") if x != "-"]
+    q = [int(x) for x in f["cpython___mro__[1:]"][3:].split(",") if x != "-"]
+    for x, y in zip(p, q):
+      if x != y:
+        for c in (x, y):
+          if c != 0:
+            defs[c] = [0]
+        break
+  return Item("x", bases, defs, no_defs(len(bases)), 1)
+
+
+def three_base_hier(rng):
+  """Hierarchies biased towards what separates C3 variants: >= 5 classes, a class with three bases one of which
+  is an ancestor of another, unrelated chains in between."""
+  live = Live()
+  n = rng.choice([5, 6, 7, 8])
+  for i in range(1, n + 1):
+    al = [a for a in live.alive() if a != 0]
+    if i >= 4 and len(al) >= 3 and rng.random() < 0.6:
+      bs = rng.sample(al, 3)
+      if rng.random() < 0.7:
+        bs.sort(reverse=True)
+        if rng.random() < 0.5:
+          bs[0], bs[1] = bs[1], bs[0]
+    elif al and rng.random() < 0.75:
+      bs = rng.sample(al, min(len(al), rng.choice([1, 1, 2])))
+    else:
+      bs = [0]
+    live.add(bs)
+  return [list(b) for b in live.bases]
+
+
 def search(res, rng, disagreements, pfail):
   common.load_pytype()
+  t_start = time.time()
   found = []
-  cands = []
   # a crash of the analysis on a plain class hierarchy is itself a failing input: find the smallest
-  for src in ["class A:\n  x = 1\nr = A.x\n", "class A: pass\nclass B(A): pass\nclass C(B, A):\n  x = 1\nr = C().x\n"]:
+  for src in ["class A:\n  x = 1\nr = A.x\n",
+              "class A: pass\nclass B(A): pass\nclass C(B, A):\n  x = 1\nr = C().x\n"]:
     try:
       run_pytype(src)
     except Exception as e:  # pylint: disable=broad-except
       found.append({"kind": "pytype crashes on a valid program (CPython runs it)", "program": src,
                     "exception": "%s: %s" % (type(e).__name__, str(e)[:300])})
       return found
-  for d in disagreements:
-    if "hier" in d and "defs" in d:
-      cands.append((d["hier"], d["defs"], d["nattrs"]))
-  # stubs first (cheap)
-  stub_c = [d["hier"] for d in disagreements if d.get("part", "").startswith("K3 stubs")]
-  stub_c += [h for h, _ in enum_hiers(3, 2)] + [random_hier(rng)[0] for _ in range(300)]
+
+  def fails(it):
+    o, _, _ = run_one(it)
+    return bool(oracle_diff(it.bases, o, observe_cpython(it)))
+
+  def report(it, kind):
+    try:
+      it = shrink_item(it, fails)
+      o, errs, _ = run_one(it)
+    except Exception as e:  # pylint: disable=broad-except
+      found.append({"kind": "pytype crashed", "program": program_text(it), "exception": repr(e)[:300]})
+      return
+    co = observe_cpython(it)
+    if any(f.get("program") == program_text(it) for f in found):
+      return
+    found.append({"kind": kind, "hier": it.bases, "defs": it.defs, "super_readers": it.sdefs,
+                  "program": program_text(it), "oracle_diff": oracle_diff(it.bases, o, co)[:10],
+                  "pytype_errors": errs, "cpython_class_status": co[0]})
+
+  # 1. linearisation level, cheap: real mro.GetBasesInMRO (same MergeSequences as the VM) against CPython's
+  #    __mro__ on many hierarchies; a hit is turned into a program whose attribute types expose the order.
+  stub_c = [d["hier"] for d in disagreements if "hier" in d]
+  stub_c += [h for h, _ in enum_hiers(3, 3)] + [h for h, _ in enum_hiers(4, 2)]
+  stub_c += [random_hier(rng)[0] for _ in range(4000)] + [three_base_hier(rng) for _ in range(12000)]
+  stub_hits = []
   for h in stub_c:
+    if time.time() - t_start > 120 or len(stub_hits) >= 5:
+      break
     try:
       f = stub_oracle_fail(h)
     except Exception as e:  # pylint: disable=broad-except
       f = {"exception": repr(e)}
     if f:
-      found.append(dict(f, kind="stub classes: mro.GetBasesInMRO vs CPython", hier=h))
-      break
-  # neighbourhood: the exhaustive small space and fresh random hierarchies, attributes defined densely
+      stub_hits.append((h, f))
+  stub_hits.sort(key=lambda x: len(x[0]))
+  for h, f in stub_hits[:2]:
+    if "exception" in f:
+      continue
+    it = targeted_item(h, f)
+    try:
+      if fails(it):
+        report(it, "program: pytype vs CPython (found via the linearisation of stub classes)")
+        break
+    except Exception:  # pylint: disable=broad-except
+      pass
+  if stub_hits and not found:
+    h, f = stub_hits[0]
+    found.append(dict(f, kind="stub classes: mro.GetBasesInMRO vs CPython __mro__[1:]", hier=h))
+  if found:
+    res.cov["search"] = {"linearisation_candidates": len(stub_c), "linearisation_hits": len(stub_hits)}
+    return found
+  # 2. program level: the disagreeing inputs, the exhaustive small space and fresh random hierarchies
+  cands = []
+  for d in disagreements:
+    if "hier" in d and "defs" in d:
+      cands.append(Item("", d["hier"], d["defs"], d.get("sdefs") or no_defs(len(d["hier"])), d["nattrs"]))
   for h, _ in enum_hiers(3, 2):
-    cands.append((h, random_defs(rng, len(h), 2), 2))
+    cands.append(Item("", h, random_defs(rng, len(h), 2), random_defs(rng, len(h), 2, p=0.3), 2))
   for _ in range(250):
     h, _ = random_hier(rng)
-    cands.append((h, random_defs(rng, len(h), 3), 3))
-  cands = [c for c in cands if valid_for_oracle(c[0])]
-  items = [("%d" % k, b, d, n) for k, (b, d, n) in enumerate(cands)]
+    cands.append(Item("", h, random_defs(rng, len(h), 3), random_defs(rng, len(h), 3, p=0.3), 3))
+  items = [c._replace(tag="%d" % k) for k, c in enumerate(c for c in cands if valid_for_oracle(c.bases))]
   obs, problems = run_programs(items, per_module=10)
   for p in problems:
     if "exception" in p:
       found.append({"kind": "pytype crashed", "exception": p["exception"], "program": p["program"]})
       break
   failing = []
-  for tag, bases, defs, nattrs in items:
-    if tag not in obs:
-      continue
-    co = observe_cpython(tag, bases, defs, nattrs)
-    d = oracle_diff(bases, obs[tag], co)
-    if d:
-      failing.append((len(bases), bases, defs, nattrs))
-  failing.sort(key=lambda x: x[0])
-  for _, bases, defs, nattrs in failing[:2]:
-    def fails(b, d, n=nattrs):
-      items1 = [("x", b, d, n)]
-      src, lines = build_module(items1)
-      types, errs = run_pytype(src)
-      o, _ = observe_pytype(items1, src, lines, types, errs)
-      return bool(oracle_diff(b, o["x"], observe_cpython("x", b, d, n)))
-    try:
-      sb, sd = shrink_hier(bases, defs, nattrs, fails)
-      for n in range(nattrs):  # fewest attribute names (hence reads) that still show the failure
-        if all(a < n for d in sd for a in d) and fails(sb, sd, n):
-          nattrs = n
-          break
-    except Exception:  # pylint: disable=broad-except
-      sb, sd = bases, defs
-    items1 = [("x", sb, sd, nattrs)]
-    src, lines = build_module(items1)
-    try:
-      types, errs = run_pytype(src)
-    except Exception as e:  # pylint: disable=broad-except
-      found.append({"kind": "pytype crashed", "program": src, "exception": repr(e)[:300]})
-      continue
-    o, _ = observe_pytype(items1, src, lines, types, errs)
-    co = observe_cpython("x", sb, sd, nattrs)
-    found.append({"kind": "program: pytype vs CPython", "hier": sb, "defs": sd, "program": src,
-                  "oracle_diff": oracle_diff(sb, o["x"], co)[:10],
-                  "pytype_errors": errs, "cpython_class_status": co[0]})
-  res.cov["search"] = {"candidates": len(items), "failing_before_shrink": len(failing)}
+  for it in items:
+    if it.tag in obs and oracle_diff(it.bases, obs[it.tag], observe_cpython(it)):
+      failing.append(it)
+  failing.sort(key=lambda it: len(it.bases))
+  for it in failing[:2]:
+    report(it._replace(tag="x"), "program: pytype vs CPython")
+  res.cov["search"] = {"linearisation_candidates": len(stub_c), "linearisation_hits": len(stub_hits),
+                       "program_candidates": len(items), "failing_before_shrink": len(failing)}
   return found
 
 
